@@ -14,6 +14,6 @@ PROP = dict(
     assumptions=["single-node servers", "set fields only (the property statement)"],
     tags=["gt"],
     units=[
-        U("roundtrip", "./ctl", "^TestVerifC30_RoundTrip$", 160, 1600, sq=4, sth=8),
+        U("roundtrip", "./ctl", "^TestVerifC30_RoundTrip$", 120, 1600, sq=4, sth=8),
     ],
 )
